@@ -26,10 +26,12 @@ struct MState { std::vector<Entry> e; /* sorted by key */ std::vector<std::strin
 	unsigned ntrig() const { unsigned n=0; for(size_t i=0;i<e.size();i++) n+=e[i].trig.size(); return n; } };
 
 // an observation of one operation, as a string (so that real and model observations compare textually)
-inline std::string obs_hit(int value,const std::set<std::string> &trig,time_t deadline){ std::ostringstream o; o<<"hit v"<<value<<" {"; for(std::set<std::string>::const_iterator i=trig.begin();i!=trig.end();++i) o<<*i<<","; o<<"} d"<<(deadline>=FOREVER?-1:(long)deadline); return o.str(); }
+inline std::string obs_hit(int value,const std::set<std::string> &trig,time_t deadline){ std::ostringstream o; o<<"hit v"<<value<<" {"; for(std::set<std::string>::const_iterator i=trig.begin();i!=trig.end();++i){ for(size_t q=0;q<i->size();q++){ unsigned char c=(*i)[q]; if(c>=0x20&&c<0x7f) o<<(char)c; else { char b[8]; snprintf(b,sizeof b,"\\x%02x",c); o<<b; } } o<<","; } o<<"} d"<<(deadline>=FOREVER?-1:(long)deadline); return o.str(); }
 
-struct Op { enum K {STORE,FETCH,RISE,REMOVE,CLEAR,TICK,STATS} k; std::string key; std::set<std::string> trig; int dl; /* deadline offset from now, or -1 = forever */ int n;
-	std::string str() const { std::ostringstream o; switch(k){ case STORE: o<<"store("<<key<<",{"; for(std::set<std::string>::const_iterator i=trig.begin();i!=trig.end();++i) o<<*i<<","; o<<"},"; if(dl<0) o<<"inf"; else o<<"now+"<<dl; o<<")"; break; case FETCH: o<<"fetch("<<key<<")"; break; case RISE: o<<"rise("<<key<<")"; break; case REMOVE: o<<"remove("<<key<<")"; break; case CLEAR: o<<"clear"; break; case TICK: o<<"tick("<<n<<")"; break; case STATS: o<<"stats"; break; } return o.str(); } };
+struct Op { enum K {STORE,FETCH,RISE,REMOVE,CLEAR,TICK,STATS} k; std::string key; std::set<std::string> trig; int dl; /* deadline offset from now; -1 = forever; <= -2 = already past: now+dl+1 (so -2 is now-1) */ int n;
+	time_t deadline_at(time_t now) const { return dl==-1? FOREVER : dl<-1? now+dl+1 : now+dl; }
+	static std::string pv(const std::string &s){ std::string r; char b[8]; for(size_t i=0;i<s.size();i++){ unsigned char c=s[i]; if(c>=0x20&&c<0x7f&&c!='\\') r+=(char)c; else { snprintf(b,sizeof b,"\\x%02x",c); r+=b; } } return r; } // printable form of a (possibly binary) key
+	std::string str() const { std::ostringstream o; switch(k){ case STORE: o<<"store("<<pv(key)<<",{"; for(std::set<std::string>::const_iterator i=trig.begin();i!=trig.end();++i) o<<pv(*i)<<","; o<<"},"; if(dl==-1) o<<"inf"; else if(dl<-1) o<<"now"<<(dl+1); else o<<"now+"<<dl; o<<")"; break; case FETCH: o<<"fetch("<<pv(key)<<")"; break; case RISE: o<<"rise("<<pv(key)<<")"; break; case REMOVE: o<<"remove("<<pv(key)<<")"; break; case CLEAR: o<<"clear"; break; case TICK: o<<"tick("<<n<<")"; break; case STATS: o<<"stats"; break; } return o.str(); } };
 
 struct Model { std::set<MState> S; time_t now; unsigned limit; int stores; bool boundary_open; // boundary_open: at now==deadline both verdicts admissible
 	Model(unsigned lim,time_t t0):now(t0),limit(lim),stores(0),boundary_open(true){ S.insert(MState()); }
@@ -49,7 +51,7 @@ struct Model { std::set<MState> S; time_t now; unsigned limit; int stores; bool 
 	void successors(const MState &s,const Op &op,std::vector<std::pair<MState,std::string> > &out) const { switch(op.k){
 		case Op::FETCH:{ int i=s.find(op.key); if(i<0){ out.push_back(std::make_pair(s,"miss")); return; } const Entry &e=s.e[i]; if(e.deadline<now){ out.push_back(std::make_pair(s,"miss")); return; }
 			if(e.deadline==now&&boundary_open) out.push_back(std::make_pair(s,"miss")); MState t=s; t.touch(op.key); out.push_back(std::make_pair(t,obs_hit(e.value,e.trig,e.deadline))); return; }
-		case Op::STORE:{ MState t=s; t.erase_key(op.key); std::vector<MState> ev; evict(t,ev); for(size_t i=0;i<ev.size();i++){ MState u=ev[i]; Entry e; e.key=op.key; e.value=stores; e.trig=op.trig; e.trig.insert(op.key); e.deadline= op.dl<0?FOREVER:now+op.dl; e.seq=stores; u.e.push_back(e); std::sort(u.e.begin(),u.e.end()); u.touch(op.key); out.push_back(std::make_pair(u,"ok")); } return; }
+		case Op::STORE:{ MState t=s; t.erase_key(op.key); std::vector<MState> ev; evict(t,ev); for(size_t i=0;i<ev.size();i++){ MState u=ev[i]; Entry e; e.key=op.key; e.value=stores; e.trig=op.trig; e.trig.insert(op.key); e.deadline= op.deadline_at(now); e.seq=stores; u.e.push_back(e); std::sort(u.e.begin(),u.e.end()); u.touch(op.key); out.push_back(std::make_pair(u,"ok")); } return; }
 		case Op::RISE:{ MState t=s; std::vector<std::string> kill; for(size_t i=0;i<t.e.size();i++) if(t.e[i].trig.count(op.key)) kill.push_back(t.e[i].key); for(size_t i=0;i<kill.size();i++) t.erase_key(kill[i]); out.push_back(std::make_pair(t,"ok")); return; }
 		case Op::REMOVE:{ MState t=s; t.erase_key(op.key); out.push_back(std::make_pair(t,"ok")); return; }
 		case Op::CLEAR: out.push_back(std::make_pair(MState(),"ok")); return;
@@ -66,7 +68,7 @@ template<class Cache> struct Real { Cache &c; std::map<std::string,int> value_of
 	Real(Cache &cc):c(cc),stores(0){}
 	std::string payload(int n){ return "v"+std::to_string(n)+payload_pad; }
 	std::string apply(const Op &op,time_t now){ switch(op.k){
-		case Op::STORE:{ stores++; time_t d= op.dl<0?FOREVER:now+op.dl; c.store(op.key,payload(stores),op.trig,d); return "ok"; }
+		case Op::STORE:{ stores++; time_t d= op.deadline_at(now); c.store(op.key,payload(stores),op.trig,d); return "ok"; }
 		case Op::FETCH:{ std::string v; std::set<std::string> tr; time_t d=0; uint64_t gen=0; if(!c.fetch(op.key,&v,&tr,&d,&gen)) return "miss"; int id=-1; if(v.size()>=2&&v[0]=='v'){ id=atoi(v.c_str()+1); if(v!=payload(id)) id=-2; }
 			if(id>0){ if(gen2store.count(gen)&&gen2store[gen]!=id) err="generation "+std::to_string(gen)+" shared by two stores"; if(store2gen.count(id)&&store2gen[id]!=gen) err="generation of one store changed"; gen2store[gen]=id; store2gen[id]=gen; }
 			return obs_hit(id,tr,d); }
